@@ -145,7 +145,7 @@ LEDGER_ASSUME = [
 @check("C01")
 def c01(run):
     run.rule = ("all transactions of the scenario scripts of spec/mc/MCLedger.tla (Plain: <=3 postings x 2 accounts x "
-                "{X,Y,Z} x {-2..2, bare 0, omitted}; Round: declared precision none/0/1 with half-unit boundaries; CostLot: "
+                "{X,Y,Z} x {-2..2, bare 0, omitted}, each behaviour replayed a second time with every amount x 10^15; Round: declared precision none/0/1 with half-unit boundaries; CostLot: "
                 "cost/lot rate/total incl. zero, same-commodity and bare rates); non-trivial = behaviour has an omitted/assigned "
                 "posting, a cost/lot, a declared precision, a rejection or an implied exchange (classes computed by the harness)")
     run.assumptions += LEDGER_ASSUME
@@ -172,10 +172,13 @@ def c02(run):
 @check("C03")
 def c03(run):
     run.rule = ("script OmitAssign: funding transaction giving account A nothing / one / two commodities, then a transaction with "
-                "an omitted or assigned posting (`= v C`, `= 0 C`, bare `= 0`) at every position among <=3 postings with costs; "
+                "an omitted or assigned posting (`= v C`, `= 0 C`, bare `= 0`) at every position among <=3 postings with costs; script CostLot: "
+                "a posting with every combination of cost and lot price (rate / total, either commodity, zero and negative) next to an omitted posting; "
                 "assignment after an omitted posting on the same account excluded (ill-defined); non-trivial as for C01")
     run.assumptions += LEDGER_ASSUME
-    sc = ["OmitAssign", "DeducePrec"] if run.tier == "quick" else ["OmitAssign", "DeducePrec", "AssertT", "Plain4"]
+    # CostLot: the omitted posting absorbs the *balancing values* of the others - lot price before cost before the amount itself -
+    # for purchases and sales alike (round 9, C03-g valued a purchase written `{lot} @ cost` at its cost)
+    sc = ["OmitAssign", "DeducePrec", "CostLot"] if run.tier == "quick" else ["OmitAssign", "DeducePrec", "CostLot", "AssertT", "Plain4"]
     ledger_scenarios(run, sc)
     ledger_traces(run)
     run.exhaustive = True
